@@ -215,6 +215,7 @@ def finish(pid: str, tier: str, seed: int, results: List[dict], t0: float, level
     lines = []
     seen_known = set()
     n_dis = n_sat = n_inc = n_reach = 0
+    replayed_per_oid: Dict[str, int] = {}
     for o in obs:
         v = o['verdict']
         if v == 'unsat':
@@ -229,6 +230,12 @@ def finish(pid: str, tier: str, seed: int, results: List[dict], t0: float, level
             lines.append(f'INCONCLUSIVE property={pid} {o["oid"]} @ {o["config"]} {o["detail"]}')
         elif v == 'sat':
             n_sat += 1
+            # replay at most 3 counterexamples per obligation id and 30 in total (each replay is a
+            # fresh interpreter); further ones of the same obligation are counted but not reported
+            if replayed_per_oid.get(o['oid'], 0) >= 3 or sum(replayed_per_oid.values()) >= 30:
+                o['replay'] = 'skipped (same obligation already replayed)'
+                continue
+            replayed_per_oid[o['oid']] = replayed_per_oid.get(o['oid'], 0) + 1
             rep = replay_in_fresh_interpreter(pid, o.get('witness') or {}, o['oid'], o['config'])
             o['replay'] = dict(reproduced=rep['reproduced'], path=os.path.relpath(rep['path'], VERIF))
             if rep['reproduced'] is True:
